@@ -61,7 +61,14 @@ func checkC04(c *Ctx) {
 	in := func(fn *ssa.Function) bool {
 		return fn.Pkg != nil && fn.Pkg.Pkg.Path() == M+"/pkcs7" || fn.Parent() != nil && fn.Parent().Pkg != nil && fn.Parent().Pkg.Pkg.Path() == M+"/pkcs7"
 	}
-	c.RuleN("A-p4.nil", in)
+	if c.RuleN("A-p4.nil", in) == 0 {
+		// no function of the package hands back "nothing, and no error" any more (the optional
+		// part is handled where it is read and the field simply stays nil): the nil-before-use
+		// condition on such a field is N4.partial's
+		if fn := c.FnOpt("pkcs7.(*PKCS7).Verify"); fn != nil {
+			c.R.Infof("A-p4.nil", name(fn), "optional-result", c.Pos(fn.Pos()), "not decided for this shape: no function of pkcs7 returns a nil value together with a nil error; a field left nil when the optional part is absent is judged by N4.partial")
+		}
+	}
 	c.R.Floor("A.issuer", 3)
 	c.R.Floor("A.serial", 3)
 	c.R.Floor("A.signature", 3)
